@@ -81,7 +81,7 @@ class Run:
         outputs SX predicts for them; the driver runs the real code on them in a plain interpreter.
         extremes: optional z3 Bool ("some input sits on a boundary of its range"); if satisfiable on this path a second,
         boundary-biased sample is recorded as well (machine-integer effects live on the boundaries)."""
-        if len(self.validations) >= MAX_VALIDATIONS_PER_INST + (2 if extremes is not None else 0):
+        if len(self.validations) >= MAX_VALIDATIONS_PER_INST + (4 if extremes is not None else 0):
             return
         import z3
         # inputs inside the class of an open known finding are validated (prediction vs real) but not judged again
@@ -94,7 +94,7 @@ class Run:
             ctx._ensure_model()
             m = ctx.model
             self.validations.append({"inputs": concretize(m), "predicted": predict(m), "nojudge": in_known(m)})
-        if extremes is not None and self._extreme_samples < 2:
+        if extremes is not None and self._extreme_samples < 4:
             r, m2 = ctx.query(extremes)
             if r == "sat":
                 self._extreme_samples += 1
